@@ -1,10 +1,10 @@
 SPECIFICATION Spec
-CONSTANTS N = 2
-          CompleteWithLast = TRUE
+CONSTANTS N = 3
+          CompleteWithLast = FALSE
           FailAt = 0
           Buffered = FALSE
-          RestartsOnLateRequest = TRUE
-          Replenish = FALSE
+          RestartsOnLateRequest = FALSE
+          Replenish = TRUE
           Grants = {1, 2, 99}
           Big = 99
           MaxCalls = 3
